@@ -333,6 +333,14 @@ json raw_tracks(world& w)
         });
     }
     json out = {{"rows", rows}};
+    // rows that name no stored track (1.x: the per-track tables of both database files; 2.x: playlist entities of this database)
+    if (w.v2)
+        out["orph"] = (int64_t)atoll(rr.text("SELECT COUNT(*) FROM PlaylistEntity WHERE databaseUuid = (SELECT uuid FROM Information) AND "
+                                             "trackId NOT IN (SELECT id FROM Track)").c_str());
+    else
+        out["orph"] = (int64_t)atoll(rr.text("SELECT (SELECT COUNT(*) FROM MetaData WHERE id NOT IN (SELECT id FROM Track)) + "
+                                             "(SELECT COUNT(*) FROM MetaDataInteger WHERE id NOT IN (SELECT id FROM Track)) + "
+                                             "(SELECT COUNT(*) FROM PerformanceData WHERE id NOT IN (SELECT id FROM Track))").c_str());
     out["sb"] = stored_blobs(w);
     out["integrity"] = rr.text("PRAGMA integrity_check");
     int nfk = 0;
